@@ -7,6 +7,13 @@ namespace AbacusVerif
 
 abbrev Bytes := List UInt8
 
+/-- results of the stream models are compared by `decide` in the non-vacuity examples -/
+instance {ε α} [DecidableEq ε] [DecidableEq α] : DecidableEq (Except ε α)
+  | .ok a, .ok b => if h : a = b then isTrue (by rw [h]) else isFalse (by intro e; cases e; exact h rfl)
+  | .error a, .error b => if h : a = b then isTrue (by rw [h]) else isFalse (by intro e; cases e; exact h rfl)
+  | .ok _, .error _ => isFalse (by intro e; cases e)
+  | .error _, .ok _ => isFalse (by intro e; cases e)
+
 /-! ### fixed-width integers -/
 
 /-- `struct.pack('!I', n)` for `n < 2^32` (the caller checks the range; see `C14.packBE32`). -/
